@@ -151,7 +151,7 @@ pub fn pref_value_for(rng: &mut Rng, name: &str) -> String {
         _ => None,
     };
     let bools = ["true", "false", "True", "FALSE"];
-    let nums = ["0", "1", "100", "180.0", "-3", "0.5", "1e400", "NaN", "inf", "-0"];
+    let nums = ["0", "1", "100", "180.0", "-3", "0.5", "1e400", "NaN", "inf", "-0", "1e20", "1e-20", "-1e20", "0.0001", "4294967296"];
     let odd = ["", " ", "Auto", "yes", "maybe", "None", "x y", "\u{a0}", "ÅÄÖ", "a-very-long-value-aaaaaaaaaaaaaaaaaaaaaaaaaaaaaaaaaaaaaaaaaaaaaaaaaaaaaaaaaaaaaaaaaaaaaaaa", "en-us-nyc", "e", "12", "[]", "*"];
     let is_float = pools::FLOAT_PREFS.contains(&name);
     match rng.below(10) {
